@@ -53,7 +53,8 @@ impl DefaultMetricLogReader {
                 let should_continue = (prev_size + items.len()) < max_lines;
                 return Ok((items, should_continue));
             }
-            let item = base::MetricItem::from_string(&line);
+            // `read_line` keeps the line terminator, which is not part of the last field
+            let item = base::MetricItem::from_string(line.trim_end_matches(|c| c == '\n' || c == '\r'));
 
             match item {
                 Ok(item) => {
